@@ -636,10 +636,11 @@ class CallMixin:
                 s.emit(tag, [self.spec_value(a, old, env, module=cmod) for a in eargs], site)
             if not getattr(c, "quiet", False):
                 s.emit(f"raise:{short}", [e], site)
-            if post is not None and not LOG_CLAUSE.search(post):
+            if post is not None:
                 env2 = dict(env)
                 env2["exc"] = e
-                s.assume(self.spec_eval(post, s, env2, old=old, mode="hyp", module=cmod))
+                for part in self.caller_visible_parts(post):
+                    s.assume(self.spec_eval(part, s, env2, old=old, mode="hyp", module=cmod))
             if not getattr(c, "quiet", False):
                 s.notes.append(f"{short}@{site} raises {exc}")
             outs.append(("exc", s, e))
@@ -677,9 +678,8 @@ class CallMixin:
                 if "result" in env:
                     env2["result"] = env["result"]
             for label, expr, _p in c.ensures_:
-                if LOG_CLAUSE.search(expr):
-                    continue    # speaks about the callee's own event log: not visible to callers
-                s.assume(self.spec_eval(expr, s, env2, old=old, mode="hyp", module=cmod))
+                for part in self.caller_visible_parts(expr):
+                    s.assume(self.spec_eval(part, s, env2, old=old, mode="hyp", module=cmod))
             if not c.ensures_ or self.feasible(s):
                 outs.append(("val", s, res))
                 n_normal_ok = True
@@ -704,6 +704,30 @@ class CallMixin:
         v = unflatten(RT, tuple(outs))
         st._typing(v, RT)
         return self.split_value(st, v, RT)
+
+    _parts_cache = {}
+
+    def caller_visible_parts(self, expr):
+        """Conjuncts of a postcondition that do not speak about the callee's own event log (those are proved of the
+        callee but mean nothing in the caller's log)."""
+        hit = self._parts_cache.get(expr)
+        if hit is not None:
+            return hit
+        if not LOG_CLAUSE.search(expr):
+            parts = [expr]
+        else:
+            parts = []
+            try:
+                tree = ast.parse(expr.strip(), mode="eval").body
+                conj = tree.values if isinstance(tree, ast.BoolOp) and isinstance(tree.op, ast.And) else [tree]
+                for cj in conj:
+                    txt = ast.unparse(cj)
+                    if not LOG_CLAUSE.search(txt):
+                        parts.append(txt)
+            except SyntaxError:
+                parts = []
+        self._parts_cache[expr] = parts
+        return parts
 
     def prop_of(self, prop):
         if prop is not None:
